@@ -90,6 +90,8 @@ type node struct {
 	atGate     bool
 	lastPicked int
 	smPasses   int
+
+	proposalsSent int
 	startErr string
 
 	initCh chan tmdriver.InitChainRequest
@@ -698,7 +700,7 @@ func (n *node) release(ans string) string {
 	case "enter":
 		if ans == "propose" {
 			select {
-			case c.out <- tmconsensus.Proposal{DataID: fmt.Sprintf("data-N-%d", c.h)}:
+			case c.out <- tmconsensus.Proposal{DataID: n.nextProposalData(c.h)}:
 				desc = "proposed"
 			default:
 				desc = "proposal-channel-unavailable"
@@ -752,6 +754,16 @@ func (n *node) release(ans string) string {
 	return "released:" + c.kind + ":" + h8([]byte(a.hash)) + desc
 }
 
+// nextProposalData: every proposal the strategy sends carries other block data (a duplicate answer of the strategy
+// is a second, different proposal).
+func (n *node) nextProposalData(h uint64) string {
+	n.proposalsSent++
+	if n.proposalsSent == 1 {
+		return fmt.Sprintf("data-N-%d", h)
+	}
+	return fmt.Sprintf("data-N-%d-%d", h, n.proposalsSent)
+}
+
 // lateProposal: the strategy sends a proposal on the channel it was given by the current round's EnterRound,
 // at any later moment of the round.
 func (n *node) lateProposal() string {
@@ -766,7 +778,7 @@ func (n *node) lateProposal() string {
 		return "n/a:no-proposal-channel"
 	}
 	select {
-	case c.out <- tmconsensus.Proposal{DataID: fmt.Sprintf("data-N-%d", c.h)}:
+	case c.out <- tmconsensus.Proposal{DataID: n.nextProposalData(c.h)}:
 		return "proposed-late"
 	default:
 		return "n/a:proposal-channel-full"
